@@ -29,6 +29,25 @@ type multiModel struct {
 	handleT    string  // type of the handle allocated in Acquire
 	R          *Region // Acquire and its helpers
 	gCreate    *Guard  // socket == nil edge of Acquire
+	createFn   *ssa.Function   // function holding the socket == nil test (Acquire or a helper)
+	holders    map[string]bool // T and the struct types T's socket field points to (a "socket with its channels" bundle)
+}
+
+// closable: t has a Close method, or is a pointer to a struct one of whose fields has (a bundle holding the socket).
+func closableOrBundle(t types.Type) (bool, string) {
+	if hasMethod(t, "Close") {
+		return true, ""
+	}
+	if pt, ok := t.Underlying().(*types.Pointer); ok {
+		if st, ok := pt.Elem().Underlying().(*types.Struct); ok {
+			for i := 0; i < st.NumFields(); i++ {
+				if hasMethod(st.Field(i).Type(), "Close") {
+					return true, eng.TypeName(pt.Elem())
+				}
+			}
+		}
+	}
+	return false, ""
 }
 
 func fieldType(p *eng.Prog, typ, field string) types.Type {
@@ -49,33 +68,57 @@ func findMultiListeners(c *Ctx, rule string) []*multiModel {
 			continue
 		}
 		m := &multiModel{T: eng.TypeName(f.Signature.Recv().Type()), acquire: f}
-		// socket field: the first `if <load of field F of T> == nil` in Acquire whose field type has a Close method
-		for _, b := range f.Blocks {
-			iff, ok := b.Instrs[len(b.Instrs)-1].(*ssa.If)
-			if !ok {
-				continue
+		m.holders = map[string]bool{m.T: true}
+		m.R = c.NewRegion(f, 2, func(h *ssa.Function) bool {
+			if eng.PkgPathOf(h) != eng.Mod+"/service" {
+				return true
 			}
-			x, trueNonNil, ok := eng.NilCompare(iff.Cond)
-			if !ok {
-				continue
+			// helpers are methods of T or plain functions of the package; not other types' methods
+			if h.Signature.Recv() != nil && eng.TypeName(h.Signature.Recv().Type()) != m.T {
+				return true
 			}
-			t, fl, _, ok := eng.FieldLoad(x)
-			if !ok || t != m.T {
-				continue
+			return false
+		})
+		// socket field: the first `if <load of field F of T> == nil` (or != nil) in Acquire or a helper whose field holds
+		// something closable
+		for _, g := range m.R.Fns {
+			if m.sockField != "" {
+				break
 			}
-			ft := fieldType(c.P, t, fl)
-			if ft == nil || !hasMethod(ft, "Close") {
-				continue
+			for _, b := range g.Blocks {
+				iff, ok := b.Instrs[len(b.Instrs)-1].(*ssa.If)
+				if !ok {
+					continue
+				}
+				x, trueNonNil, ok := eng.NilCompare(iff.Cond)
+				if !ok {
+					continue
+				}
+				t, fl, _, ok := eng.FieldLoad(x)
+				if !ok || t != m.T {
+					continue
+				}
+				ft := fieldType(c.P, t, fl)
+				if ft == nil {
+					continue
+				}
+				okC, bundle := closableOrBundle(ft)
+				if !okC {
+					continue
+				}
+				if bundle != "" {
+					m.holders[bundle] = true
+				}
+				m.sockField, m.createIf, m.createFn = fl, iff, g
+				m.createEdge, m.skipEdge = eng.Edge{From: b, To: b.Succs[0]}, eng.Edge{From: b, To: b.Succs[1]}
+				if trueNonNil {
+					m.createEdge, m.skipEdge = m.skipEdge, m.createEdge
+				}
+				break
 			}
-			m.sockField, m.createIf = fl, iff
-			m.createEdge, m.skipEdge = eng.Edge{From: b, To: b.Succs[0]}, eng.Edge{From: b, To: b.Succs[1]}
-			if trueNonNil {
-				m.createEdge, m.skipEdge = m.skipEdge, m.createEdge
-			}
-			break
 		}
 		if m.sockField == "" {
-			c.Undecided(rule, "anchor:"+m.T+":socket-field", c.P.Pos(f.Pos()), "Acquire has no `socket == nil` test on a closable field of its receiver")
+			c.Undecided(rule, "anchor:"+m.T+":socket-field", c.P.Pos(f.Pos()), "Acquire (with its helpers) has no `socket == nil` test on a field of its receiver that holds something closable")
 			continue
 		}
 		// count field: an integer field of T stored in Acquire with value load+const
@@ -97,18 +140,8 @@ func findMultiListeners(c *Ctx, rule string) []*multiModel {
 			c.Undecided(rule, "anchor:"+m.T+":count-field", c.P.Pos(f.Pos()), "Acquire increments no integer field of its receiver")
 			continue
 		}
-		acq := f
+		acq := m.createFn
 		ce := m.createEdge
-		m.R = c.NewRegion(f, 2, func(h *ssa.Function) bool {
-			if eng.PkgPathOf(h) != eng.Mod+"/service" {
-				return true
-			}
-			// helpers are methods of T or plain functions of the package; not other types' methods
-			if h.Signature.Recv() != nil && eng.TypeName(h.Signature.Recv().Type()) != m.T {
-				return true
-			}
-			return false
-		})
 		m.gCreate = c.NewGuard(func(fn *ssa.Function) eng.EdgeSet {
 			if fn == acq {
 				return eng.EdgeSet{ce: true}
@@ -293,7 +326,7 @@ func methodCallOnField(p *eng.Prog, method, typ, field string) func(ssa.Instruct
 			return false
 		}
 		r := eng.Receiver(&c.Call)
-		return r != nil && p.AnyFrom(r, eng.Plain, func(v ssa.Value) bool { return eng.IsFieldLoad(v, typ, field) })
+		return r != nil && p.AnyFrom(r, eng.OriginOpts{ThroughSlice: true, ThroughConvert: true, ThroughFieldLoad: true}, func(v ssa.Value) bool { return eng.IsFieldLoad(v, typ, field) })
 	}
 }
 
